@@ -63,6 +63,11 @@ void harness(void)
             if (c == 'c' || c == 'a') {
                 char v = (char)vp_u8();
                 VP_ASSUME(v != '\0' && v != '\n' && !blank(v));
+#ifdef VP_CMD
+                /* the command letter is concrete per query (the driver enumerates the alphabet plus an
+                 * unknown letter): one handler per query instead of fifteen in one formula */
+                if (c == 'c') v = VP_CMD;
+#endif
                 if (c == 'c') {
                     VP_ASSUME(v != ':');
                     if (!have_cmd) { cmd = v; have_cmd = 1; }
@@ -88,6 +93,9 @@ void harness(void)
             if (c == 'c' || c == 'a') {
                 char v = (char)vp_u8();
                 VP_ASSUME(v != '\0' && v != '\n' && !blank(v) && v != ':');
+#ifdef VP_CMD2
+                if (c == 'c') v = VP_CMD2;
+#endif
                 c = v;
             }
             line2[i] = c;
